@@ -553,7 +553,39 @@ func sites(c *checked) []site {
 					}
 				}
 			}
+		case *ast.FuncDecl:
+			// a function with results loses its final return statement
+			if x.Type.Results != nil && len(x.Type.Results.List) > 0 && x.Body != nil && len(x.Body.List) > 0 {
+				if _, ok := x.Body.List[len(x.Body.List)-1].(*ast.ReturnStmt); ok {
+					xx := x
+					add("missing-return", func() { xx.Body.List = xx.Body.List[:len(xx.Body.List)-1] })
+				}
+			}
+		case *ast.FuncLit:
+			if x.Type.Results != nil && len(x.Type.Results.List) > 0 && x.Body != nil && len(x.Body.List) > 0 {
+				if _, ok := x.Body.List[len(x.Body.List)-1].(*ast.ReturnStmt); ok {
+					xx := x
+					add("missing-return", func() { xx.Body.List = xx.Body.List[:len(xx.Body.List)-1] })
+				}
+			}
 		case *ast.SwitchStmt:
+			// a fallthrough statement followed by other statements, or in the last clause
+			if x.Body != nil {
+				for i, st := range x.Body.List {
+					cc, ok := st.(*ast.CaseClause)
+					if !ok {
+						continue
+					}
+					if len(cc.Body) > 0 {
+						add("fallthrough-out-of-place", func() {
+							cc.Body = append([]ast.Stmt{&ast.BranchStmt{Tok: token.FALLTHROUGH}}, cc.Body...)
+						})
+					}
+					if i == len(x.Body.List)-1 {
+						add("fallthrough-final-clause", func() { cc.Body = append(cc.Body, &ast.BranchStmt{Tok: token.FALLTHROUGH}) })
+					}
+				}
+			}
 			// an ill-typed expression in a case list, before and after valid ones
 			if x.Tag != nil && x.Body != nil {
 				if tv, ok := c.info.Types[x.Tag]; ok && tv.Type != nil {
@@ -674,7 +706,7 @@ func knownOps() map[string]bool {
 func allOps() []string {
 	ops := []string{"operand-type-numeric", "assign-type-numeric", "arg-type-numeric", "return-type-numeric", "operand-type", "compare-type", "assign-type", "assign-type-composite", "opassign-type", "var-init-type", "const-range-assign", "const-range-var", "const-range-arg",
 		"arg-count-more", "arg-count-less", "arg-type", "undefined-method", "return-count-more", "return-count-less", "return-type", "undefined-field", "undefined-name", "for-cond-nonbool",
-		"case-list-first-mismatch", "case-list-last-mismatch", "case-list-float-constant", "complit-duplicate-field", "complit-unknown-field", "complit-mixed", "complit-too-few", "complit-too-many", "complit-elem-type", "complit-array-bounds", "complit-map-key-type"}
+		"missing-return", "fallthrough-out-of-place", "fallthrough-final-clause", "case-list-first-mismatch", "case-list-last-mismatch", "case-list-float-constant", "complit-duplicate-field", "complit-unknown-field", "complit-mixed", "complit-too-few", "complit-too-many", "complit-elem-type", "complit-array-bounds", "complit-map-key-type"}
 	for _, s := range snippets {
 		ops = append(ops, "snippet:"+s.op)
 	}
